@@ -4,7 +4,7 @@ CONSTANTS
   Params <- GenParams
   OrderKinds = {"trade"}
   NS = {2, 3, 4, 5}
-  RECS = {{}, {2}, {3}, {1, 4}}
+  RECS = {{}, {2}, {3}, {1}, {1, 2}, {1, 4}}
   MaxOrders = 4
 INVARIANT Emit PrefixAlways CompleteInOrder
 CHECK_DEADLOCK FALSE
